@@ -608,7 +608,7 @@ NENUM = 4
 
 
 def jobs(tier):
-    n = 20000 if tier == "thorough" else 1000
+    n = 18000 if tier == "thorough" else 800
     js = [{"kind": "hyp", "shard": i, "n": n, "max_len": 400 if (tier == "thorough" and i % 4 == 3) else 40}
           for i in range(16)]
     js += [{"kind": "enum", "shard": i} for i in range(NENUM)]
